@@ -1064,6 +1064,17 @@ func ruleWhoMayWriteFiles(r *Run, rule string, k *storeKind) {
 				}
 			}
 			if !okArg {
+				// a column of a literal table of the segment's files: every row's path is one of the fresh paths
+				if col := tableColumn(arg); len(col) > 0 {
+					okArg = true
+					for _, e := range col {
+						if !fresh(e) {
+							okArg = false
+						}
+					}
+				}
+			}
+			if !okArg {
 				okRm = false
 			}
 		}
@@ -1470,6 +1481,24 @@ func ruleOwnership(r *Run, p string, k *storeKind) {
 						if in == ssa.Instruction(pcall) {
 							released = true
 						}
+					}
+				}
+				// nothing to release: the receiver itself or its provider was found nil on this path
+				cn := NewCanon(w)
+				for _, d := range pth.Decisions {
+					bo, isB := d.Cond.(*ssa.BinOp)
+					if !isB || (bo.Op != token.EQL && bo.Op != token.NEQ) {
+						continue
+					}
+					l, rr := cn.S(bo.X), cn.S(bo.Y)
+					if rr != "nil" {
+						l, rr = rr, l
+					}
+					if rr != "nil" || (l != "P0" && l != "P0.provider") {
+						continue
+					}
+					if d.Taken == (bo.Op == token.EQL) {
+						released = true
 					}
 				}
 				if !already && !released {
